@@ -60,10 +60,11 @@ fn main() -> anyhow::Result<()> {
 
         let vertices = args.vertices.unwrap();
 
+        // a graph without vertices is complete with no edges
         let edges = if args.undirected {
-            (vertices * (vertices - 1)) / 2
+            (vertices * vertices.saturating_sub(1)) / 2
         } else {
-            vertices * (vertices - 1)
+            vertices * vertices.saturating_sub(1)
         };
 
         generate_graph(vertices, edges, args.undirected)?
